@@ -153,7 +153,7 @@ func epPaths(r *Run) []Path {
 	g := newFullGen()
 	N, L := 3, 2
 	if r.Thorough() {
-		N, L = 3, 3
+		N, L = 4, 3
 	}
 	r.Bound("max_path_nodes", N)
 	r.Bound("max_error_chain_length", L)
